@@ -197,3 +197,167 @@ func c18Tiling(c *Ctx, r *Report, rule string) {
 			fmt.Sprintf("the parsed fields do not cover the reassembled buffer: covered up to %s by %s; the rest (%s) does not continue there up to %s - bytes of an accepted message are dropped, serialising it cannot reproduce the input", cur, strings.Join(chain, " "), strings.Join(rest, " "), end))
 	}
 }
+
+// c18Chunks: Winbox messages travel in chunks [length, type, bytes...] of at most 255 bytes, every chunk but the
+// last one full. The parser's chunk arithmetic is evaluated on chunk sequences written from that definition (payload
+// sizes around the chunk boundaries; only the length and type bytes are fixed, the content is symbolic), the
+// serialiser's on messages of the same payload sizes: both must produce the reference splitting.
+func c18Chunks(c *Ctx, r *Report, rule string) {
+	r.rule(rule, "Winbox chunking (evaluation of MessageAuth.FromBytes on well-formed chunk sequences for payloads of 35..766 bytes around the chunk boundaries, and of ToChunks for the same payload sizes): the parser accepts every well-formed sequence and hands on chunks that tile the payload; sequences with a short inner chunk, a wrong chunk type or a missing tail are rejected; the serialiser splits a payload into the same chunks", 2)
+	const max = 255
+	split := func(n int) []int {
+		var out []int
+		for n > 0 {
+			k := n
+			if k > max {
+				k = max
+			}
+			out = append(out, k)
+			n -= k
+		}
+		return out
+	}
+	sizes := []int{35, 36, 100, 254, 255, 256, 257, 300, 509, 510, 511, 512, 700, 765, 766}
+	// ---- parser
+	fnName := "modules/l4winbox.(*MessageAuth).FromBytes"
+	fn := c.Fn(fnName)
+	if fn == nil {
+		r.bad(rule, fnName, "exists", "-", "function not found")
+	} else {
+		type tcase struct {
+			name   string
+			chunks []int
+			types  []int64
+			cut    int // bytes removed from the end
+			accept bool
+		}
+		var cases []tcase
+		for _, n := range sizes {
+			cs := split(n)
+			ts := make([]int64, len(cs))
+			for i := range ts {
+				ts[i] = 0xFF
+			}
+			ts[0] = 0x06
+			cases = append(cases, tcase{fmt.Sprintf("payload=%d", n), cs, ts, 0, true})
+		}
+		cases = append(cases,
+			tcase{"short inner chunk", []int{200, 100}, []int64{0x06, 0xFF}, 0, false},
+			tcase{"second chunk of type auth", []int{255, 40}, []int64{0x06, 0x06}, 0, false},
+			tcase{"first chunk of type prev", []int{60}, []int64{0xFF}, 0, false},
+			tcase{"tail missing", []int{255, 40}, []int64{0x06, 0xFF}, 10, false},
+			tcase{"second chunk header only", []int{255, 0}, []int64{0x06, 0xFF}, 0, false},
+		)
+		var problems []string
+		for _, t := range cases {
+			total := 0
+			heap := map[string]SV{}
+			pos := 0
+			for i, k := range t.chunks {
+				heap[fmt.Sprintf("src[%d]", pos)] = symInt(int64(k))
+				heap[fmt.Sprintf("src[%d]", pos+1)] = symInt(t.types[i])
+				pos += 2 + k
+			}
+			total = pos - t.cut
+			sc := &Scenario{Name: t.name, MaxVisit: 8, MaxPaths: 2000, NoDefaultInline: true,
+				Params: map[string]SV{"recv": symRef("msg", false), "p0": symSlice("src", int64(total))}, Heap: heap}
+			var got [][2]int64 // (offset, length) of the chunks handed on
+			reached := false
+			sc.Call = func(callee string, args []SV, ev *symEval, st *symState) (SV, bool) {
+				if strings.HasSuffix(callee, "(*MessageAuth).FromChunks") {
+					reached = true
+					got = nil
+					cl := args[1]
+					if cl.Len != nil && cl.Len.Known {
+						for i := int64(0); i < cl.Len.N; i++ {
+							ch := st.heap[fmt.Sprintf("%s[%d]", cl.Desc, i)]
+							b := st.heap[ch.Desc+".Bytes"]
+							base, lo := sliceBase(b.Desc)
+							ln := int64(-1)
+							if b.Len != nil && b.Len.Known {
+								ln = b.Len.N
+							}
+							if base != "src" {
+								lo = -1
+							}
+							got = append(got, [2]int64{lo, ln})
+						}
+					}
+					return SV{K: "ref", Known: true, Nil: true, Desc: "nil"}, true
+				}
+				return SV{}, false
+			}
+			paths, err := evalPaths(fn, sc)
+			if err != nil || len(paths) != 1 {
+				problems = append(problems, fmt.Sprintf("%s: undecided (%d paths, %v)", t.name, len(paths), err))
+				continue
+			}
+			p := paths[0]
+			accepted := reached && p.Outcome == "return" && len(p.Ret) == 1 && p.Ret[0].Known && p.Ret[0].Nil
+			if accepted != t.accept {
+				problems = append(problems, fmt.Sprintf("%s (%d bytes, chunks %v): accepted=%v, the chunk format says %v (%s)", t.name, total, t.chunks, accepted, t.accept, p.retDesc()))
+				continue
+			}
+			if t.accept {
+				off := int64(2)
+				okTiles := len(got) == len(t.chunks)
+				for i := 0; okTiles && i < len(got); i++ {
+					if got[i][0] != off || got[i][1] != int64(t.chunks[i]) {
+						okTiles = false
+					}
+					off += int64(t.chunks[i]) + 2
+				}
+				if !okTiles {
+					problems = append(problems, fmt.Sprintf("%s: the chunks handed on are %v (offset, length), expected the payload ranges of %v", t.name, got, t.chunks))
+				}
+			}
+		}
+		r.check(len(problems) == 0, rule, fnName, "chunk sequences", c.pos(fn.Pos()), fmt.Sprintf("%d sequences", len(cases)), strings.Join(problems, "; "))
+	}
+	// ---- serialiser
+	toName := "modules/l4winbox.(*MessageAuth).ToChunks"
+	tf := c.Fn(toName)
+	if tf == nil {
+		r.bad(rule, toName, "exists", "-", "function not found")
+		return
+	}
+	var problems []string
+	for _, n := range sizes {
+		u := int64(n - 34)
+		ul := symInt(u)
+		sc := &Scenario{Name: fmt.Sprintf("payload=%d", n), MaxVisit: 8, MaxPaths: 2000,
+			Params: map[string]SV{"recv": symRef("msg", false)},
+			Heap:   map[string]SV{"msg.Username": {K: "str", Desc: "user", Len: &ul}, "msg.PublicKeyBytes": symSlice("key", 32), "msg.PublicKeyParity": {K: "int", Desc: "parity"}}}
+		paths, err := evalPaths(tf, sc)
+		if err != nil || len(paths) != 1 || len(paths[0].Ret) != 1 {
+			problems = append(problems, fmt.Sprintf("payload=%d: undecided (%d paths, %v)", n, len(paths), err))
+			continue
+		}
+		p := paths[0]
+		ret := p.Ret[0]
+		var got []int64
+		if ret.Len != nil && ret.Len.Known {
+			for i := int64(0); i < ret.Len.N; i++ {
+				ch := p.Heap[fmt.Sprintf("%s[%d]", ret.Desc, i)]
+				l := p.Heap[ch.Desc+".Length"]
+				b := p.Heap[ch.Desc+".Bytes"]
+				if l.Known && b.Len != nil && b.Len.Known && b.Len.N == l.N {
+					got = append(got, l.N)
+				} else {
+					got = append(got, -1)
+				}
+			}
+		}
+		want := split(n)
+		same := len(got) == len(want)
+		for i := 0; same && i < len(got); i++ {
+			if got[i] != int64(want[i]) {
+				same = false
+			}
+		}
+		if !same {
+			problems = append(problems, fmt.Sprintf("payload=%d: serialised as chunks of %v bytes, the chunk format says %v", n, got, want))
+		}
+	}
+	r.check(len(problems) == 0, rule, toName, "chunk splitting", c.pos(tf.Pos()), fmt.Sprintf("%d payload sizes", len(sizes)), strings.Join(problems, "; "))
+}
